@@ -77,10 +77,16 @@ def run(F, R, tier):
             ints = [x[1] for x in sym.subterms(t_) if isinstance(x, tuple) and x[:1] == ("lit",) and isinstance(x[1], int) and not isinstance(x[1], bool)]
             if t_[:1] == ("lit",):
                 gets.append(("idx", t_[1]))
-            elif "RangeInclusive" in sym.fmt(t_) or (t_[:1] == ("call",) and "RangeInclusive" in t_[1]):
+            elif t_[:1] == ("struct",):
+                fl = dict((kv[0], kv[1]) for kv in t_[2:] if isinstance(kv, tuple) and len(kv) == 2)
+                kind = t_[1].rsplit("::", 1)[-1]
+                lo, hi = fl.get("start"), fl.get("end")
+                lits = [x[1] for x in (lo, hi) if isinstance(x, tuple) and x[:1] == ("lit",)]
+                if kind == "Range" and isinstance(hi, tuple) and hi[:1] != ("lit",):
+                    lits += [y[1] for y in sym.subterms(hi) if isinstance(y, tuple) and y[:1] == ("lit",) and isinstance(y[1], int)]
+                gets.append((kind, lits))
+            elif t_[:1] == ("call",) and "RangeInclusive" in t_[1]:
                 gets.append(("RangeInclusive", ints[:2]))
-            elif t_[:1] == ("struct",) and t_[1].endswith("::Range"):
-                gets.append(("Range", ints))
             else:
                 gets.append(("?", ints))
         r1.site("reader slices %s" % gets, rh["value"]["sp"])
